@@ -169,6 +169,9 @@ def run_c19(prop, tier):
     mcases, w3 = tlc_cases(tier, ["EmitMon(0)"], tag="mcw-mon")
     for i, c in enumerate(mcases):
         txn.append(dict(c, mode="mon-" + ("monitor", "monitor_cond", "monitor_cond_since")[i % 3]))
+    ncases, w4 = tlc_cases(tier, ["EmitNotif(0)"], tag="mcw-notif")
+    for i, c in enumerate(ncases):
+        txn.append(dict(c, mode="notif-update" if c["t"] == "TableUpdates" else ("notif-update2", "notif-update3")[i % 2]))
     for c in dcases + txn:
         c["text"] = render(c["tree"])[:2000]
     res = shard_run(vh, dcases) + shard_run(vh, txn, n=min(NCPU, 8))
@@ -189,14 +192,16 @@ def run_c19(prop, tier):
     cov = {"states": sum(r["states"] for r in res), "transitions": sum(r["transitions"] for r in res), "traces_validated_against_impl": len(res),
            "corrupted_trees_decoded": sum(1 for e in evs if e["ev"] == "dec"), "decoder_outcomes": out,
            "small_trees_decoded_by_every_decoder": sum(1 for e in evs if e["ev"] == "small"), "decoders": 22,
-           "ill_formed_transactions": len(tcases), "monitor_requests_followed_by_commits": len(mcases), "transaction_outcomes": tout, "process_crashes": sum(r["crashes"] for r in res),
+           "ill_formed_transactions": len(tcases), "monitor_requests_followed_by_commits": len(mcases), "notifications_sent_to_a_client": len(ncases), "transaction_outcomes": tout, "process_crashes": sum(r["crashes"] for r in res),
            "samples": [{"t": c["t"], "mode": c["mode"], "input": c["text"][:300]} for c in (dcases[:: max(1, len(dcases) // 3)][:3] + txn[:: max(1, len(txn) // 3)][:3])],
            "known_findings_seen": verdict["known"],
            "rule": "TLC enumerates Corrupt(v) (every tree one local edit away: a node replaced by each junk atom/array, an element or member dropped, an element "
                    "appended) for the valid encodings of 18 wire types, and every tree of depth/width <= 2 over the keyword atoms; each is decoded (and, if it decodes, "
                    "encoded) under recover; corrupted transactions on a 6-column table (every arithmetic mutator with 0, 2 and 0.5 on integer, real and integer-set "
                    "columns; dropped members; swapped value kinds) run on the engine and as raw requests followed by an echo on a real server; monitor requests "
-                   "(every member present/absent, corrupted ones) are sent on their own connections and followed by an insert, a modify and a delete of the monitored table"}
+                   "(every member present/absent, corrupted ones) are sent on their own connections and followed by an insert, a modify and a delete of the monitored table; "
+                   "update / update2 / update3 notifications (sound, naming unknown tables or columns, ill-typed, one edit away from sound) are sent to a real client "
+                   "monitoring the table, followed by an echo: the client takes or refuses each and a client works afterwards"}
     write_evidence(prop, tier, "model_checking", cov, time.time() - t0, violations=len(verdict["violations"]),
                    assumptions=["bytes that are not JSON stop in encoding/json before any libovsdb code runs: trees suffice",
                                 "long or deeply nested adversarial inputs and coverage-guided byte fuzzing are outside this technique"])
